@@ -36,3 +36,11 @@ for k, v in sorted(bad.items(), key=lambda kv: len(cd[kv[0]])):
     if shown[tuple(v[1])] < 2:
         shown[tuple(v[1])] += 1
         print(k, v[1], cd[k][:300], '\n   ', v[2][:600])
+for k, v in bad.items():
+    if 'harness' in v[1]:
+        o = obs.get(k, '')
+        print('HARNESS', k, o[:200])
+        import re
+        for h in re.findall(r'\((?:harness-error|harness-panic) ([0-9a-f-]+)\)', o):
+            print('   ', bytes.fromhex(h) if h != '-' else '')
+        break
